@@ -13,7 +13,7 @@ PROPS = {
     "C06": [("u_rows", "quick"), ("u_switch", "quick"), ("u_matchentry", "quick")],
     "C19": [("u_goident", "quick"), ("u_reserved", "quick"), ("u_gensym", "quick"), ("u_varname", "quick"), ("u_genphase", "quick"), ("u_entryname", "quick")],
     "C17": [("u_dynvis", "quick"), ("u_ceffect", "quick"), ("u_block", "quick"), ("u_inherent", "quick"), ("u_dynpayload", "quick"), ("u_dynimpl", "quick"), ("u_dynorigin", "quick"), ("u_dyngate", "quick"), ("u_traitname", "quick")],
-    "C16": [("u_pkgallow", "quick"), ("u_orphan", "quick"), ("u_topo", "quick"), ("u_depenv", "quick"), ("u_cohere", "quick"), ("u_loadpkg", "quick"), ("u_scope", "quick"), ("u_deprec", "quick"), ("u_link", "quick"), ("u_tygate", "quick")],
+    "C16": [("u_pkgallow", "quick"), ("u_orphan", "quick"), ("u_topo", "quick"), ("u_depenv", "quick"), ("u_cohere", "quick"), ("u_loadpkg", "quick"), ("u_scope", "quick"), ("u_deprec", "quick"), ("u_link", "quick"), ("u_tygate", "quick"), ("u_lowertype", "quick")],
     "C10": [("u_intlit", "quick"), ("u_dcefx", "quick"), ("u_tastlit", "quick"), ("u_golit", "quick"), ("u_cexpr", "quick"), ("u_numarms", "quick"), ("u_fmtverb", "quick"), ("u_corefloat", "quick"), ("u_floatlit", "quick")],
     "C07": [("u_munify", "quick"), ("u_msubst", "quick"), ("u_mcall", "quick"), ("u_tmono", "quick"), ("u_minst", "quick"), ("u_fieldinst", "quick")],
     "C15": [("u_art", "quick"), ("u_link", "quick"), ("u_deprec", "quick")],
